@@ -90,7 +90,12 @@ impl View {
                             v.max_subj_id = v.max_subj_id.max(*sid);
                         }
                     } else {
-                        s.peer_hdr = true;
+                        // an interim (1xx) response is not the response head: DATA may not follow it, another HEADERS may
+                        let interim = role == Side::Client
+                            && f.block.as_ref().and_then(|b| b.fields.as_ref().ok()).map(|fs| fs.iter().any(|(n, val)| n == b":status" && val.first() == Some(&b'1') && val.len() == 3)).unwrap_or(false);
+                        if !interim {
+                            s.peer_hdr = true;
+                        }
                         s.peer_eos |= *eos;
                         if !subj_parity(*sid) {
                             v.max_peer_id = v.max_peer_id.max(*sid);
@@ -542,6 +547,8 @@ pub fn states() -> Vec<StateSpec> {
         s("s-settings-in-flight", Server, true),
         StateSpec { max_concurrent_1: true, ..s("s-refused", Server, false) },
         s("s-recv-window-negative", Server, true),
+        s("s-conn-window-exhausted", Server, false),
+        s("s-trailers-received", Server, true),
         s("c-fresh", Client, true),
         s("c-request-open", Client, true),
         s("c-half-closed-local", Client, true),
@@ -558,6 +565,8 @@ pub fn states() -> Vec<StateSpec> {
         s("c-settings-in-flight", Client, true),
         StateSpec { push_disabled: true, ..s("c-push-disabled", Client, true) },
         s("c-send-window-negative", Client, true),
+        s("c-conn-window-exhausted", Client, false),
+        s("c-interim-received", Client, true),
     ]
 }
 
@@ -771,6 +780,44 @@ pub fn enter(t: &mut T2, s: &StateSpec) -> App {
             t.conn_flag.wake_by_ref_pub();
             t.drive(d);
             t.peer_ack_settings();
+            t.drive(d);
+        }
+        "s-conn-window-exhausted" => {
+            // the peer has used the whole connection window (65535 octets over three streams, nothing read or released)
+            for sid in [1u32, 3, 5] {
+                t.peer_request(sid, "/a", false);
+            }
+            t.drive(d);
+            t.peer_send(&wf::data(1, &vec![0x11; 16384], false));
+            t.peer_send(&wf::data(1, &vec![0x11; 16384], false));
+            t.peer_send(&wf::data(3, &vec![0x11; 16384], false));
+            t.peer_send(&wf::data(3, &vec![0x11; 16383], false));
+            t.drive(d);
+        }
+        "s-trailers-received" => {
+            // request complete: head, data, trailers with END_STREAM; response not yet started; plus a second open stream
+            t.peer_request(1, "/a", false);
+            t.peer_send(&wf::data(1, b"abc", false));
+            t.peer_send(&wf::headers(1, &T2::block(&[("x-trailer", "t")]), true, true));
+            t.peer_request(3, "/b", false);
+            t.drive(d);
+        }
+        "c-conn-window-exhausted" => {
+            client_request(t, &mut app, false);
+            client_request(t, &mut app, false);
+            t.drive(d);
+            t.peer_response(1, "200", false);
+            t.peer_response(3, "200", false);
+            t.peer_send(&wf::data(1, &vec![0x11; 16384], false));
+            t.peer_send(&wf::data(1, &vec![0x11; 16384], false));
+            t.peer_send(&wf::data(3, &vec![0x11; 16384], false));
+            t.peer_send(&wf::data(3, &vec![0x11; 16383], false));
+            t.drive(d);
+        }
+        "c-interim-received" => {
+            client_request(t, &mut app, false);
+            t.drive(d);
+            t.peer_response(1, "103", false);
             t.drive(d);
         }
         "c-send-window-negative" => {
@@ -1387,6 +1434,8 @@ pub fn labels_after(s: &StateSpec, prefix: &[String]) -> Option<Vec<String>> {
     out
 }
 
+const QUICK_CORE_STATES: [&str; 12] = ["s-open", "s-half-closed-remote", "s-response-open", "s-local-reset", "s-goaway-final", "s-two-open", "c-request-open", "c-response-open", "c-promised", "c-local-reset", "c-goaway-received", "c-interim-received"];
+
 pub fn is_boundary_label(l: &str) -> bool {
     l.contains("-pad") && l.contains("-of-5") || l.contains("to-max") || l.contains("padded-priority")
 }
@@ -1455,6 +1504,10 @@ pub fn run(ctx: &Ctx) -> Outcome {
                 return;
             }
             let (s, prefix) = &frontier[i];
+            // quick tier: the second prefix level only for a fixed core of twelve states (all states in the thorough tier)
+            if ctx.tier.is_quick() && level >= 2 && !QUICK_CORE_STATES.contains(&s.name) {
+                return;
+            }
             let Some(labels) = labels_after(s, prefix) else {
                 chains_abandoned.fetch_add(1, Ordering::Relaxed);
                 return;
@@ -1515,7 +1568,7 @@ pub fn run(ctx: &Ctx) -> Outcome {
     out.set("traces_validated_against_impl", json!(total));
     out.set("distinct_nontrivial", json!(obs.lock().unwrap().len()));
     out.set("exhaustive", json!(!cut.load(Ordering::Relaxed)));
-    out.set("rule", json!("X3 on T2: every (state, event) pair of the catalogues, and every event again after every one and every two (thorough: three, as far as the budget allows; the evidence says which level completed) preceding events that are legal or plain stream errors and leave the connection in service: the real endpoint (either role) is brought into each of 32 stream / connection states by a legal history, then one event (1-4 raw frames built with the independent serializer: every frame type on the primary stream, an idle peer stream, an idle own stream, stream 0, malformed sizes, flow-control overflows, header-block interleavings, push promises ...) is injected; the RFC 9113 reference classification (connection error / stream error / legal / unspecified), computed from the wire history alone, decides what must be observed: GOAWAY with a code, RST_STREAM or GOAWAY, or no penalty + content delivered + a follow-up exchange completes; nothing of an illegal frame may surface. distinct_nontrivial = distinct (reaction, class) observations"));
+    out.set("rule", json!("X3 on T2: every (state, event) pair of the catalogues, and every event again after every one preceding event and, for twelve core states (thorough: all states, and three events as far as the budget allows; the evidence says which level completed), after every two preceding events that are legal or plain stream errors and leave the connection in service: the real endpoint (either role) is brought into each of 32 stream / connection states by a legal history, then one event (1-4 raw frames built with the independent serializer: every frame type on the primary stream, an idle peer stream, an idle own stream, stream 0, malformed sizes, flow-control overflows, header-block interleavings, push promises ...) is injected; the RFC 9113 reference classification (connection error / stream error / legal / unspecified), computed from the wire history alone, decides what must be observed: GOAWAY with a code, RST_STREAM or GOAWAY, or no penalty + content delivered + a follow-up exchange completes; nothing of an illegal frame may surface. distinct_nontrivial = distinct (reaction, class) observations"));
     out.add_sample(json!({"harness": "c09.pair", "state": "s-open", "event": "DATA(prim)"}));
     out.add_sample(json!({"harness": "c09.pair", "state": "c-request-parked", "event": "PUSH_PROMISE(prim->even)"}));
     out.guard_nonzero("pairs classified conn", classes.get("conn").copied().unwrap_or(0));
